@@ -69,8 +69,10 @@ Definition dy_of_bits (b : Z) : option dy :=
 
 Inductive aop := OAdd | OSub | OMul | ODiv.
 
-(* IEEE-754 binary32: bit pattern -> dyadic, and the correctly rounded (nearest-even) bit pattern of a dyadic
-   in the normal range (None outside it).  -0 and +0 are identified (bit pattern 0), as for f64. *)
+Definition dop (o : aop) : dy -> dy -> dy :=
+  match o with OAdd => dadd | OSub => dsub | OMul => dmul | ODiv => ddiv end.
+
+(* IEEE-754 binary32 bit pattern -> dyadic (None for inf / nan) *)
 Definition dy_of_bits32 (b : Z) : option dy :=
   if orb (Z.ltb b 0) (Z.leb (2 ^ 32) b) then None else
   let s := (b / 2 ^ 31)%Z in
@@ -81,23 +83,29 @@ Definition dy_of_bits32 (b : Z) : option dy :=
   let e := if Z.eqb ex 0 then (-149)%Z else (ex - 150)%Z in
   Some (dnorm (if Z.eqb s 1 then (- m)%Z else m) e).
 
-Definition bits32_of_dy (a : dy) : option Z :=
+(* the correctly rounded (nearest, ties to even) bit pattern of a dyadic in a binary format with p significand
+   bits and eb exponent bits; None outside the normal range.  Zero is +0 (-0 and +0 are identified). *)
+Definition fbits_of_dy (p eb : Z) (a : dy) : option Z :=
   let '(m, e) := a in
   if Z.eqb m 0 then Some 0%Z else
   let am := Z.abs m in
   let n := (Z.log2 am + 1)%Z in
   let '(m1, e1) :=
-    if Z.leb n 24 then (am, e) else
-      let sh := (n - 24)%Z in
+    if Z.leb n p then (am, e) else
+      let sh := (n - p)%Z in
       let qq := (am / 2 ^ sh)%Z in
       let rem := (am mod 2 ^ sh)%Z in
       let half := (2 ^ (sh - 1))%Z in
       let q1 := if orb (Z.ltb half rem) (andb (Z.eqb rem half) (Z.odd qq)) then (qq + 1)%Z else qq in
       dnorm q1 (e + sh)%Z in
   let n1 := (Z.log2 m1 + 1)%Z in
-  let E := (e1 + n1 - 1 + 127)%Z in
-  if orb (Z.leb E 0) (Z.leb 255 E) then None else
-  Some ((if Z.ltb m 0 then 2 ^ 31 else 0) + E * 2 ^ 23 + (m1 * 2 ^ (24 - n1) - 2 ^ 23))%Z.
+  let E := (e1 + n1 - 1 + (2 ^ (eb - 1) - 1))%Z in
+  if orb (Z.leb E 0) (Z.leb (2 ^ eb - 1) E) then None else
+  Some ((if Z.ltb m 0 then 2 ^ (p - 1 + eb) else 0) + E * 2 ^ (p - 1) + (m1 * 2 ^ (p - n1) - 2 ^ (p - 1)))%Z.
+Definition bits32_of_dy := fbits_of_dy 24 8.
+Definition bits64_of_dy := fbits_of_dy 53 11.
+(* one f64 operation: the exact result, rounded *)
+Definition rnd64 (a : dy) : option dy := match bits64_of_dy a with Some b => dy_of_bits b | None => None end.
 
 (* the integer kinds and their ranges *)
 Definition int_range (k : string) : option (Z * Z) :=
@@ -112,50 +120,107 @@ Definition int_range (k : string) : option (Z * Z) :=
   if String.eqb k "i64" then Some (- 2 ^ 63, 2 ^ 63 - 1)%Z else
   if String.eqb k "i128" then Some (- 2 ^ 127, 2 ^ 127 - 1)%Z else None.
 
-(* one element of an op-assignment on payloads of kind k: None = the kernel panics there (integer overflow,
-   division by zero; the harness build has overflow checks on) or the kind has no such kernel *)
-Definition kop (k : string) (o : aop) (x y : sx) : option sx :=
-  match x, y with
-  | Zx a, Zx b =>
-      match int_range k with
-      | Some (lo, hi) =>
-          let r := match o with
-                   | OAdd => Some (a + b)%Z | OSub => Some (a - b)%Z | OMul => Some (a * b)%Z
-                   | ODiv => if Z.eqb b 0 then None else Some (Z.quot a b)
-                   end in
-          match r with
-          | Some z => if andb (Z.leb lo z) (Z.leb z hi) then Some (Zx z) else None
-          | None => None
-          end
-      | None =>
-          if String.eqb k "f32" then
+(* a rational in lowest terms with a positive denominator (d <> 0) *)
+Definition qred (n d : Z) : sx :=
+  let g := Z.gcd n d in
+  if Z.eqb g 0 then Lx [Zx 0; Zx 1]
+  else if Z.ltb d 0 then Lx [Zx (- (n / g)); Zx (- (d / g))] else Lx [Zx (n / g); Zx (d / g)].
+
+(* one element of an op-assignment on payloads of kind k *)
+Inductive kor :=
+| KV (z : sx)        (* done *)
+| KPanic             (* the kernel panics here before it stores anything (integer overflow and division by zero:
+                        the harness build has overflow checks on), or the model has no such kernel *)
+| KPanicW (z : sx).  (* the kernel panics here AFTER it stored z (Ratio::div_assign by zero: the fields are
+                        updated, then reduce() panics on the zero denominator) *)
+
+Definition kop (k : string) (o : aop) (x y : sx) : kor :=
+  match int_range k, x, y with
+  | Some (lo, hi), Zx a, Zx b =>
+      let r := match o with
+               | OAdd => Some (a + b)%Z | OSub => Some (a - b)%Z | OMul => Some (a * b)%Z
+               | ODiv => if Z.eqb b 0 then None else Some (Z.quot a b)
+               end in
+      match r with
+      | Some z => if andb (Z.leb lo z) (Z.leb z hi) then KV (Zx z) else KPanic
+      | None => KPanic
+      end
+  | _, _, _ =>
+      if String.eqb k "f32" then
+        match x, y with
+        | Zx a, Zx b =>
             match dy_of_bits32 a, dy_of_bits32 b with
             | Some da, Some db =>
-                match o with
-                | ODiv => if dy_pow2 db then option_map Zx (bits32_of_dy (ddiv da db)) else None
-                | OAdd => option_map Zx (bits32_of_dy (dadd da db))
-                | OSub => option_map Zx (bits32_of_dy (dsub da db))
-                | OMul => option_map Zx (bits32_of_dy (dmul da db))
-                end
-            | _, _ => None
+                let r := match o with
+                         | ODiv => if dy_pow2 db then bits32_of_dy (ddiv da db) else None
+                         | OAdd => bits32_of_dy (dadd da db)
+                         | OSub => bits32_of_dy (dsub da db)
+                         | OMul => bits32_of_dy (dmul da db)
+                         end in
+                match r with Some z => KV (Zx z) | None => KPanic end
+            | _, _ => KPanic
             end
-          else None
-      end
-  | _, _ => None
+        | _, _ => KPanic
+        end
+      else if String.eqb k "r64" then
+        match x, y with
+        | Lx [Zx n; Zx d], Lx [Zx n'; Zx d'] =>
+            if orb (Z.eqb d 0) (Z.eqb d' 0) then KPanic else
+            match o with
+            | OAdd => KV (qred (n * d' + n' * d) (d * d'))
+            | OSub => KV (qred (n * d' - n' * d) (d * d'))
+            | OMul => KV (qred (n * n') (d * d'))
+            | ODiv =>
+                if Z.eqb n' 0 then (if Z.eqb n 0 then KPanic else KPanicW (Lx [Zx (Z.sgn n); Zx 0]))
+                else KV (qred (n * d') (d * n'))
+            end
+        | _, _ => KPanic
+        end
+      else if String.eqb k "c64" then
+        match x, y with
+        | Lx [Zx a; Zx b], Lx [Zx c; Zx d] =>
+            match dy_of_bits a, dy_of_bits b, dy_of_bits c, dy_of_bits d with
+            | Some a', Some b', Some c', Some d' =>
+                let r := match o with
+                         | OAdd => Some (dadd a' c', dadd b' d')
+                         | OSub => Some (dsub a' c', dsub b' d')
+                         | OMul =>
+                             match rnd64 (dmul a' c'), rnd64 (dmul b' d'), rnd64 (dmul a' d'), rnd64 (dmul b' c') with
+                             | Some ac, Some bd, Some ad, Some bc => Some (dsub ac bd, dadd ad bc)
+                             | _, _, _, _ => None
+                             end
+                         | ODiv => None
+                         end in
+                match r with
+                | Some (re, im) =>
+                    match bits64_of_dy re, bits64_of_dy im with
+                    | Some rb, Some ib => KV (Lx [Zx rb; Zx ib])
+                    | _, _ => KPanic
+                    end
+                | None => KPanic
+                end
+            | _, _, _, _ => KPanic
+            end
+        | _, _ => KPanic
+        end
+      else KPanic
   end.
+Definition has_kop (k : string) : bool :=
+  andb (negb (String.eqb k "i128"))
+       (orb (match int_range k with Some _ => true | None => false end)
+            (orb (String.eqb k "f32") (orb (String.eqb k "r64") (String.eqb k "c64")))).
 
-(* sink.iter_mut().zip(source.iter()) with a kernel that may panic: (elements after the loop, completed?, written) *)
+(* sink.iter_mut().zip(source.iter()) with a kernel that may panic: (elements after the loop, completed?, stores) *)
 Fixpoint kops (k : string) (o : aop) (a b : list sx) : list sx * bool * nat :=
   match a, b with
   | x :: a', y :: b' =>
       match kop k o x y with
-      | Some z => let '(r, ok, n) := kops k o a' b' in (z :: r, ok, S n)
-      | None => (a, false, O)
+      | KV z => let '(r, ok, n) := kops k o a' b' in (z :: r, ok, S n)
+      | KPanic => (a, false, O)
+      | KPanicW z => (z :: a', false, 1)
       end
   | _, _ => (a, true, O)
   end.
-Definition dop (o : aop) : dy -> dy -> dy :=
-  match o with OAdd => dadd | OSub => dsub | OMul => dmul | ODiv => ddiv end.
 
 (* ------------------------------------------------------------------ *)
 (* syntax of the histories                                             *)
@@ -644,12 +709,11 @@ Definition k_op (cs : list (nat * dv)) (o : aop) (sink src : value) : kres :=
           | _, _ => KErr
           end
       | DK k sh l, VC b =>
-          (* integer kinds (not i128) and f32, element by element in storage order: a panic at the first element
-             leaves the sink alone, a later one leaves the elements before it written *)
+          (* integer kinds (not i128), f32, r64 and c64, element by element in storage order: what was stored
+             before a panic stays *)
           match get b cs with
           | DK k' sh' l' =>
-              if andb (andb (String.eqb k k') (negb (String.eqb k "i128")))
-                      (orb (match int_range k with Some _ => true | None => false end) (String.eqb k "f32")) then
+              if andb (String.eqb k k') (has_kop k) then
                 match sh, sh', l' with
                 | None, None, _ | Some _, Some _, _ =>
                     if shape_compat sh sh' then
@@ -860,6 +924,13 @@ Definition holders (st : store) (c : nat) : list (string * birth) :=
 Definition birth_is (b : birth) (k : nat) : bool :=
   match b, k with BDefVar, 1 => true | BDestr, 2 => true | BLitVar, 3 => true | _, _ => false end.
 
+(* the element kind of what x holds ("" when it is not a scalar or matrix of a kind other than f64) *)
+Definition sink_kind (st : store) (x : string) : string :=
+  match find x (names st) with
+  | Some (_, v, _) => match deref1 v with VC a => match get a (cells st) with DK k _ _ => k | _ => "" end | _ => "" end
+  | None => ""
+  end.
+
 (* a failing step of the model, classified from the state BEFORE it *)
 Definition classify (cf : cfg) (st : store) (s : stmt) : option string :=
   let '(s1, ok, w) := exec cf st s in
@@ -870,7 +941,11 @@ Definition classify (cf : cfg) (st : store) (s : stmt) : option string :=
       match w with
       | None => None
       | Some c =>
-          if negb ok then (match s with SOp _ _ _ => Some "int-op-partial" | _ => Some "table-column-partial" end) else
+          if negb ok then
+            (match s with
+             | SOp x _ _ => if String.eqb (sink_kind st x) "r64" then Some "r64-div-zero-partial" else Some "int-op-partial"
+             | _ => Some "table-column-partial"
+             end) else
           match assign_target s with
           | None => None
           | Some x =>
@@ -906,8 +981,10 @@ Definition dec_shape (r c : sx) : option (nat * nat) :=
   end.
 (* -0.0 and +0.0 of f32 are identified, as the dyadic decoding does for f64 *)
 Definition canon_payload (k : string) (p : sx) : sx :=
+  let z64 := fun b => if Z.eqb b (2 ^ 63) then 0%Z else b in
   match p with
   | Zx b => if andb (String.eqb k "f32") (Z.eqb b (2 ^ 31)) then Zx 0 else p
+  | Lx [Zx a; Zx b] => if String.eqb k "c64" then Lx [Zx (z64 a); Zx (z64 b)] else p
   | _ => p
   end.
 Definition is_f64 (k : string) : bool := String.eqb k "f64".
@@ -984,6 +1061,7 @@ Definition dec_stmt (x : sx) : option stmt :=
   | Lx [Ax "op"; n; o; e] =>
       match sx_str n, dec_op o, dec_expr e with
       | Some n', Some ODiv, Some (ENum y) => if dy_pow2 y then Some (SOp n' ODiv (ENum y)) else None
+      | Some n', Some ODiv, Some (EK k sh l) => Some (SOp n' ODiv (EK k sh l))
       | Some _, Some ODiv, _ => None
       | Some n', Some o', Some e' => Some (SOp n' o' e')
       | _, _, _ => None
